@@ -133,7 +133,27 @@ var propPred = hx.Prop[PCase]{
 		"IP-literal domains in random case; non-trivial = a list that matters for the drawn default is non-empty or a pattern has a wildcard",
 	Quick: 5000, Thorough: 20000,
 	Gen: func(t *rapid.T) PCase {
-		return PCase{Cfg: cfgGen.Draw(t, "cfg"), Domain: domGen.Draw(t, "domain")}
+		c := PCase{Cfg: cfgGen.Draw(t, "cfg"), Domain: domGen.Draw(t, "domain")}
+		if rapid.IntRange(0, 3).Draw(t, "letter") == 0 {
+			// case folding letter by letter: a listed domain queried with exactly one kind of
+			// letter in upper case (every letter of the alphabet gets its turn)
+			l := string(rune('a' + rapid.IntRange(0, 25).Draw(t, "l")))
+			listed := "m" + l + l + "k." + l + "test"
+			c.Domain = "m" + strings.ToUpper(l+l) + "k." + strings.ToUpper(l) + "test"
+			switch rapid.IntRange(0, 4).Draw(t, "where") {
+			case 0:
+				c.Cfg.AcceptDomains = append(c.Cfg.AcceptDomains, listed)
+			case 1:
+				c.Cfg.RejectDomains = append(c.Cfg.RejectDomains, listed)
+			case 2:
+				c.Cfg.StoreDomains = append(c.Cfg.StoreDomains, listed)
+			case 3:
+				c.Cfg.DiscardDomains = append(c.Cfg.DiscardDomains, listed)
+			default:
+				c.Cfg.RejectOrigin = append(c.Cfg.RejectOrigin, rapid.SampledFrom([]string{listed, "*." + l + "test", "m" + l + "?k.*"}).Draw(t, "opat"))
+			}
+		}
+		return c
 	},
 	Run: func(c PCase) *hx.Outcome {
 		o := &hx.Outcome{}
